@@ -1,4 +1,5 @@
 """C13 driver: kruskal / prim on the same undirected multigraph; the UnionFind calls inside kruskal are recorded too."""
+from drivers.labels import FreshList
 import random
 
 INF = float("inf")
@@ -18,7 +19,7 @@ _ODD = [None, "", 0, (), 1.5, frozenset(), b"", ("t",), -1, "x", 7, (0, 0), 2.5,
 def _label(kind, i):
     if kind == "odd":        # any hashable labels, not mutually orderable: None, falsy values, bytes, frozensets
         return _ODD[i] if i < len(_ODD) else ("odd", i)
-    return {"str": "n%d" % i, "tuple": (i, "k"), "float": i + 0.5}.get(kind, i)
+    return {"str": "n%d" % i, "tuple": (i, "k"), "float": i + 0.5, "big": 1000 + i}.get(kind, i)
 
 
 def run_mst(case):
@@ -61,7 +62,7 @@ def run_mst(case):
     finally:
         mst.UnionFind = orig
     kind = case.get("labels", "int")
-    labs = [_label(kind, i) for i in range(n)]
+    labs = FreshList(_label(kind, i) for i in range(n))
     ids = {lb: i for i, lb in enumerate(labs)}
     g = {lb: [] for lb in labs}
     for u, v, w in E:
@@ -97,5 +98,5 @@ def gen(rng, nmax=9):
         for a, b in zip(perm, perm[1:]):
             edges.append([a, b, rng.randint(0, 9)])
     rng.shuffle(edges)
-    return {"n": n, "edges": edges, "wscale": rng.choice([1, 1, 4]), "labels": rng.choice(["int", "str", "tuple", "float", "odd"]),
+    return {"n": n, "edges": edges, "wscale": rng.choice([1, 1, 4]), "labels": rng.choice(["int", "str", "tuple", "float", "odd", "big"]),
             "starts": [None, rng.randrange(n), rng.randrange(n)]}
